@@ -1,0 +1,23 @@
+//! Verification hooks, only compiled with the cargo feature `verif`.
+//! Counters of the incremental parser's decisions. They are observations only.
+use std::sync::atomic::{AtomicUsize, Ordering};
+
+/// Nodes taken over unchanged from the old tree.
+pub static REUSED: AtomicUsize = AtomicUsize::new(0);
+/// Old nodes that were parsed again, because the change affected them.
+pub static REPARSED: AtomicUsize = AtomicUsize::new(0);
+/// Old nodes that were dropped, because they could neither be reused nor rebuilt.
+pub static INVALIDATED: AtomicUsize = AtomicUsize::new(0);
+
+/// Returns `(reused, reparsed, invalidated)` and resets the counters.
+pub fn take_counters() -> (usize, usize, usize) {
+    (
+        REUSED.swap(0, Ordering::Relaxed),
+        REPARSED.swap(0, Ordering::Relaxed),
+        INVALIDATED.swap(0, Ordering::Relaxed),
+    )
+}
+
+pub(crate) fn count(counter: &AtomicUsize) {
+    counter.fetch_add(1, Ordering::Relaxed);
+}
